@@ -2,7 +2,7 @@
 From Coq Require Import ZArith QArith List Bool.
 From Flocq Require Import IEEE754.BinarySingleNaN.
 From KV Require Import Base.IEEE Base.Outcome Base.Num C19.Model C06.Model C06.Dur.
-From KV Require Export C04.Interp C04.Transport C04.Resampler C04.StaticData C04.StaticSound.
+From KV Require Export C04.Interp C04.Transport C04.TransportSeek C04.Resampler C04.StaticData C04.StaticSound.
 Local Open Scope Z_scope.
 
 #[global] Instance SOps_f32 : SOps f32 := {|
@@ -20,8 +20,8 @@ Definition frame32 : Type := @frame f32.
 Definition ssound_b := ssound f64 frame32.
 Definition sound_new_b (fuel : nat) (d : sdata f64 frame32) : outcome ssound_b :=
   sound_new frame32 frame_zero fuel d.
-Definition on_start_b (fuel : nat) (s : ssound_b) (c : cmds f64) : outcome ssound_b :=
-  on_start_processing frame32 frame_zero fuel s c.
+Definition on_start_b (s : ssound_b) (c : cmds f64) : outcome ssound_b :=
+  on_start_processing frame32 frame_zero s c.
 
 (** exact instance: Q frames, Q time, the cast is the identity *)
 Definition frameQ : Type := @frame Q.
